@@ -102,6 +102,10 @@ def run(P, item):
         mid = dict(keys=[k for k, v in store.items], vals=[v for k, v in store.items], queue=list(queue.items), held=[l.name for l in all_locks(I) if l.state != 0])
         # ---- resume or drop
         fin = None; ne2 = len(ctx.events)
+        # a clock reading while the call is still suspended: whatever the resumed call stamps is stamped no earlier than this
+        tmark = ctx.fresh_time('unix_s', 2 ** 40)
+        if ctx.sys_vars: ctx.add(tmark >= ctx.sys_vars[-1])
+        ctx.sys_vars.append(tmark)
         if end == 'resume':
             for _ in range(8):
                 pr = run_single(ctx, I.call_fn(ctx, pf, [Agg('Pin', 0, [Ref(cell)]), Opaque('cx')]))
@@ -112,7 +116,7 @@ def run(P, item):
         after = dict(keys=[k for k, v in store.items], vals=[v for k, v in store.items], queue=list(queue.items), held=[l.name for l in all_locks(I) if l.state != 0],
                      execs=[e for e in ctx.events[ne2:] if e[0] == 'exec'])
         key = g0[-1]['key']
-        return dict(subj=subj, x=x, fills=fills, at_susp=at_susp, mid=mid, after=after, fin=fin, other=other, inter_execs=inter_execs, key=key, pred=pred, pre_keys=pre_keys)
+        return dict(subj=subj, x=x, fills=fills, at_susp=at_susp, mid=mid, after=after, fin=fin, other=other, inter_execs=inter_execs, key=key, pred=pred, pre_keys=pre_keys, tmark=tmark)
 
     outs, st = explore(run_path, seed=item.get('seed', 0), timeout_ms=20000)
     for o in outs:
@@ -156,6 +160,11 @@ def run(P, item):
                         if c is True and it['max_memory'] is None:
                             vv = v.fields[0] if isinstance(v, Agg) else v
                             add('the entry stored by the resumed call holds its result', simp(term_eq(vv, ex[0][4])))
+            if ex and it['ttl'] is not None and not it['result'] and not it['cache_if'] and it['max_memory'] is None:
+                # "If the call is resumed later it stores its result normally": the entry's lifetime starts when it is stored, not when the call began
+                for k, v in zip(d['after']['keys'], d['after']['vals']):
+                    if simp(str_eq(k, d['key'])) is True and isinstance(v, Agg) and len(v.fields) >= 2:
+                        add('the entry stored by a resumed call is stamped when it is stored (not with the time the call began)', v.fields[1] >= d['tmark'])
             add('no lock is held after the resumed call completed', len(d['after']['held']) == 0)
             ka = d['after']['keys']; qa = d['after']['queue']
             nodup = b_and(*[b_not(simp(str_eq(qa[i], qa[j]))) for i in range(len(qa)) for j in range(i + 1, len(qa))]) if len(qa) > 1 else True
@@ -229,6 +238,17 @@ def replay(f, w):
     dev = None
     if 'held' in cl or 'guard' in cl: dev = None                       # only a native block confirms these (handled above)
     elif 'no entry exists' in cl: dev = f'an entry for the pending result ({kx}) exists at the suspension point' if keyl and kx in keyl[0] else None
+    elif 'stamped when it is stored' in cl:
+        # natively: keep the call suspended for a whole ttl, resume it, and ask again at once: the fresh entry must answer
+        ttl = rec['intended']['ttl']
+        i_ = L.index('poll 1')
+        L2 = L[:i_ + 1] + [f'sleep_ms {ttl * 1000 + 1100}'] + [l for l in L[i_ + 1:] if not l.startswith('keys ')]
+        outs2, err2 = R.run_scenarios('\n'.join(L2) + '\n', timeout=120)
+        if outs2:
+            l2 = outs2[0]; e2 = [int(l.split()[1]) for l in l2 if l.startswith('execs ')]
+            if len(e2) >= 2 and e2[-1] != e2[-2]:
+                dev = f'a call suspended for {ttl + 1} s and then resumed stores an entry that the very next call no longer finds (executions {e2[-2]} -> {e2[-1]}): it was stamped with the time the call began'
+                lines = l2
     elif 'has removed no entry' in cl:
         lost = [k for k in w.get('predicted', {}).get('keys_before', []) if k not in (keyl[0] if keyl else [])]
         dev = f'entries {lost} stored before the call are gone while it is suspended in its body (keys at the suspension point: {sorted(keyl[0])})' if lost else None
